@@ -763,6 +763,18 @@ pub const ALPHABET: &[u8] = &[
 
 const SEED_TEXT: &str = "A<b> é ß Ω я ש ع ก 中文字 漢字 かな カナ ｶﾅ 한글 €¥‾−\u{3000}〜\u{E5E5}\u{1F4A9}\u{20000}\u{2A6B2} 龜 \u{00CA}\u{0304} ㈱ ∑ 丂 鷗 \u{E7C7} \u{E78D} \u{FFFD}";
 
+/// a class-representative byte, or (one time in four) a byte that is a comparison constant of the
+/// crate's source or one of its neighbours
+fn pick_byte(rng: &mut Rng) -> u8 {
+    static LOW: std::sync::OnceLock<Vec<u8>> = std::sync::OnceLock::new();
+    let low = LOW.get_or_init(|| source_constants().iter().filter(|&&c| c < 0x100).map(|&c| c as u8).collect());
+    if !low.is_empty() && rng.chance(1, 4) {
+        *rng.pick(low)
+    } else {
+        *rng.pick(ALPHABET)
+    }
+}
+
 pub fn gen_stream(rng: &mut Rng, e: &'static Encoding, maxlen: usize) -> Vec<u8> {
     let mut v: Vec<u8> = Vec::new();
     let mode = rng.below(10);
@@ -777,7 +789,7 @@ pub fn gen_stream(rng: &mut Rng, e: &'static Encoding, maxlen: usize) -> Vec<u8>
             v.extend_from_slice(&b);
         }
         if rng.chance(1, 3) {
-            v.push(*rng.pick(ALPHABET));
+            v.push(pick_byte(rng));
         }
     } else if mode < 5 {
         // mostly valid: encode a shuffled selection of the seed text, then mutate a little
@@ -800,8 +812,8 @@ pub fn gen_stream(rng: &mut Rng, e: &'static Encoding, maxlen: usize) -> Vec<u8>
             }
             let i = rng.below(v.len());
             match rng.below(3) {
-                0 => v[i] = *rng.pick(ALPHABET),
-                1 => v.insert(i, *rng.pick(ALPHABET)),
+                0 => v[i] = pick_byte(rng),
+                1 => v.insert(i, pick_byte(rng)),
                 _ => {
                     v.remove(i);
                 }
@@ -810,7 +822,7 @@ pub fn gen_stream(rng: &mut Rng, e: &'static Encoding, maxlen: usize) -> Vec<u8>
     } else if mode < 9 {
         let n = rng.below(maxlen + 1);
         for _ in 0..n {
-            v.push(*rng.pick(ALPHABET));
+            v.push(pick_byte(rng));
         }
     } else {
         let n = rng.below(maxlen + 1);
